@@ -990,6 +990,7 @@ func TestC14(t *testing.T) {
 		run(func() { c14resetWhileBusy(rep, seed, i) })
 		run(func() { c14udpClientClosedPort(rep, seed, i) })
 		run(func() { c14udpClientOldPortTaken(rep, seed, i) })
+		run(func() { c14clientNameMoves(rep, seed, i) })
 	}
 	for i := 0; i < vh.Pick(2, 12); i++ {
 		i := i
@@ -1457,4 +1458,151 @@ func c14activeStalled(rep *vh.Report, seed uint64, idx int, asClient bool) {
 	<-life.done
 	rep.Eval(1)
 	rep.Distinct("active-stalled", idx, asClient)
+}
+
+// fakeDNS answers A queries for any name with the address it currently holds (AAAA: no records). It is plugged into
+// net.DefaultResolver through Dial: every query gets a pipe of its own, with DNS-over-TCP framing (two length bytes).
+type fakeDNS struct {
+	mu      sync.Mutex
+	ip      [4]byte
+	queries int
+}
+
+func (d *fakeDNS) set(ip [4]byte) { d.mu.Lock(); d.ip = ip; d.mu.Unlock() }
+
+func (d *fakeDNS) dial(ctx context.Context, network, address string) (net.Conn, error) {
+	c1, c2 := net.Pipe()
+	go func() {
+		defer c2.Close()
+		for {
+			var l [2]byte
+			if _, err := io.ReadFull(c2, l[:]); err != nil {
+				return
+			}
+			q := make([]byte, int(l[0])<<8|int(l[1]))
+			if _, err := io.ReadFull(c2, q); err != nil || len(q) < 17 {
+				return
+			}
+			// question: name, type, class
+			i := 12
+			for i < len(q) && q[i] != 0 {
+				i += int(q[i]) + 1
+			}
+			if i+5 > len(q) {
+				return
+			}
+			qend := i + 5
+			qtype := int(q[i+1])<<8 | int(q[i+2])
+			resp := append([]byte{q[0], q[1], 0x81, 0x80, 0, 1, 0, 0, 0, 0, 0, 0}, q[12:qend]...)
+			if qtype == 1 {
+				d.mu.Lock()
+				ip := d.ip
+				d.queries++
+				d.mu.Unlock()
+				resp[7] = 1
+				resp = append(resp, 0xC0, 0x0C, 0, 1, 0, 1, 0, 0, 0, 0, 0, 4, ip[0], ip[1], ip[2], ip[3])
+			}
+			out := append([]byte{byte(len(resp) >> 8), byte(len(resp))}, resp...)
+			if _, err := c2.Write(out); err != nil {
+				return
+			}
+		}
+	}()
+	return c1, nil
+}
+
+// c14clientNameMoves: a TCP client addressed by host name. After its first channel the name resolves to another address
+// (the peer has moved: DHCP, fail-over) and the old address refuses connections. The endpoint dials what is configured -
+// the name - and opens a fresh channel to the new address after the reconnect delay.
+func c14clientNameMoves(rep *vh.Report, seed uint64, idx int) {
+	if aborted() {
+		return
+	}
+	var l1, l2 net.Listener
+	var port int
+	for try := 0; try < 20 && l2 == nil; try++ {
+		port = freeTCPPort()
+		a, err := net.Listen("tcp4", fmt.Sprintf("127.0.0.1:%d", port))
+		if err != nil {
+			continue
+		}
+		b, err := net.Listen("tcp4", fmt.Sprintf("127.0.0.2:%d", port))
+		if err != nil {
+			a.Close()
+			continue
+		}
+		l1, l2 = a, b
+	}
+	if l2 == nil {
+		rep.Inconclusive("C14 name moves: no port free on both loopback addresses")
+		return
+	}
+	defer l2.Close()
+	dns := &fakeDNS{ip: [4]byte{127, 0, 0, 1}}
+	old := net.DefaultResolver
+	net.DefaultResolver = &net.Resolver{PreferGo: true, Dial: dns.dial}
+	defer func() { net.DefaultResolver = old }()
+	accepted := make(chan string, 8)
+	for _, l := range []net.Listener{l1, l2} {
+		l := l
+		go func() {
+			for {
+				c, err := l.Accept()
+				if err != nil {
+					return
+				}
+				accepted <- c.LocalAddr().String()
+				go func() { _, _ = io.Copy(io.Discard, c); c.Close() }()
+				if l == l1 {
+					// the peer at the first address takes one connection, then goes away for good
+					time.Sleep(100 * time.Millisecond)
+					c.Close()
+					l1.Close()
+					return
+				}
+			}
+		}()
+	}
+	node := &gomavlib.Node{Endpoints: []gomavlib.EndpointConf{gomavlib.EndpointTCPClient{Address: fmt.Sprintf("verif-moving-%d.example:%d", idx, port)}}, Dialect: testDialect,
+		OutVersion: gomavlib.V2, OutSystemID: 41, HeartbeatDisable: true}
+	if err := node.Initialize(); err != nil {
+		l1.Close()
+		rep.Observe("C14 name moves: Initialize refused a client endpoint addressed by name: " + err.Error())
+		return
+	}
+	life := watchLife(node)
+	first := ""
+	select {
+	case first = <-accepted:
+	case <-time.After(3 * time.Second):
+	}
+	if first == "" {
+		l1.Close()
+		rep.Inconclusive("C14 name moves: the client never connected to the address its name resolved to")
+		safeClose(rep, node)
+		<-life.done
+		return
+	}
+	// the name now points elsewhere
+	dns.set([4]byte{127, 0, 0, 2})
+	second := ""
+	select {
+	case second = <-accepted:
+	case <-time.After(4 * time.Second):
+	}
+	waitFor(func() bool { return life.count(true) >= 2 }, life.progress, time.Second)
+	opens := life.count(true)
+	if !safeClose(rep, node) {
+		return
+	}
+	<-life.done
+	rep.Eval(1)
+	rep.Count("tcp_clients_whose_name_moved_to_another_address", 1)
+	rep.Distinct("name-moves", idx)
+	if second == "" || opens < 2 {
+		dns.mu.Lock()
+		q := dns.queries
+		dns.mu.Unlock()
+		rep.Violation("ep=tcp-client what=no-reconnect", fmt.Sprintf("a TCP client addressed by name connected to %s; then the name resolved to 127.0.0.2 and the old address refused connections: no fresh channel within 4 s (reconnect period %v; %d channels opened, %d address queries answered)", first, c14reconnect, opens, q), nil)
+	}
 }
